@@ -72,6 +72,13 @@ def un_post(ctx, st, result):
     ctx.oblige("post", "result-is-never-an-exception-object", not isinstance(out, ExcVal), note=f"members tried {tried}, accepts {d['accepts']}, result {out!r}")
     legit = [d["produced"][i] for i in d["produced"]] + ([d["orig_val"]] if fallback(d) else [])
     ctx.oblige("post", "result-was-produced-by-an-accepting-member(or is the original string)", any(out is x for x in legit))
+    order = list(range(len(d["members"]))) if "sorted-order=0" in ctx.decisions_txt else list(reversed(range(len(d["members"]))))
+    ctx.oblige("post", "the-members-are-tried-in-the-sorted-order,none-skipped", tried == order[: len(tried)], note=f"tried {tried} sorted {order}")
+    first = next((i for i in tried if d["accepts"].get(i)), None)
+    if first is not None:
+        ctx.oblige("post", "the-first-member(in that order)-that-accepts-decides:its-result-is-the-value,later-members-are-not-tried", out is d["produced"][first] and tried[-1] == first)
+    else:
+        ctx.oblige("post", "no-member-accepts=>every-member-was-tried-and-the-value-is-the-original-string", sorted(tried) == list(range(len(d["members"]))) and out is d["orig_val"])
 
 
 def un_raises(ctx, st, exc):
